@@ -155,6 +155,8 @@ def _undef(what):
 
 
 def _signed_check(v, t, what):
+    if not isinstance(v, int):
+        return          # arithmetic on a model object (iterator / pointer)
     w, sg = width(t)
     if sg and w >= 32 and not (-(1 << (w - 1)) <= v < (1 << (w - 1))):
         raise UndefinedBehaviour('signed overflow in %s (%d does not fit %s)' % (what, v, t))
@@ -189,6 +191,12 @@ class Interp:
         k = e.get('k')
         if k in ('paren',):
             return self.ev(e['e'], env, members)
+        if k == 'sizeof' and e.get('cv') is not None:
+            return int(e['cv'])
+        if k == 'this':
+            if '__this__' in env:
+                return env['__this__']
+            raise Unsupported('this')
         if k == 'lit':
             return int(e['cv']) if e.get('cv') is not None else _undef('literal')
         if k == 'str':
@@ -228,13 +236,17 @@ class Interp:
                 root = b
                 while root is not None and root.get('k') == 'member':
                     root = strip(root.get('base'))
-                if root is not None and root.get('k') in ('ref', 'call', 'un'):
+                if root is not None and root.get('k') in ('ref', 'call', 'un', 'this'):
                     try:
                         bv = self.ev(e['base'], env, members)
                     except Unsupported:
                         bv = None
                     if isinstance(bv, dict) and e.get('name') in bv:
                         return bv[e['name']]
+                    if hasattr(bv, 'get_member') and e.get('name'):
+                        return bv.get_member(e['name'])
+                    if hasattr(bv, 'get_member') and not e.get('name'):
+                        return bv               # anonymous union / struct level
             path = member_path(e)
             if path is not None:
                 if path in members:
@@ -252,6 +264,10 @@ class Interp:
                 self.store(e['e'], new, env, members)
                 return old if e.get('post') else new
             v = self.ev(e['e'], env, members)
+            if op == '&' and not isinstance(v, int):
+                return v                    # the address of a model object is the object
+            if op == '*' and not isinstance(v, int):
+                return v.deref() if hasattr(v, 'deref') else v
             if op == '!':
                 return 0 if v else 1
             if op == '-':
@@ -286,6 +302,15 @@ class Interp:
             l = self.ev(e['l'], env, members)
             r = self.ev(e['r'], env, members)
             if op in ('==', '!=', '<', '<=', '>', '>='):
+                if not (isinstance(l, int) and isinstance(r, int)):
+                    # model objects (pointers to structs): identity; a null pointer is the integer 0
+                    same = l is r or (getattr(l, 'value_eq', False) and getattr(r, 'value_eq', False) and l == r) or \
+                        (isinstance(l, tuple) and isinstance(r, tuple) and l == r)
+                    if op == '==':
+                        return 1 if same else 0
+                    if op == '!=':
+                        return 0 if same else 1
+                    raise Unsupported('ordering comparison of model objects')
                 return 1 if {'==': l == r, '!=': l != r, '<': l < r, '<=': l <= r, '>': l > r, '>=': l >= r}[op] else 0
             res = self.arith(op, l, r, e)
             if op in ('+', '-', '*'):
@@ -396,6 +421,19 @@ class Interp:
         if l.get('k') == 'member' and strip(l.get('base')) is not None and strip(l['base']).get('k') == 'this':
             members[l['name']] = v
             return
+        if l.get('k') == 'member':
+            # a field of a modelled struct value (reached through a pointer / reference / another member)
+            try:
+                bv = self.ev(l['base'], env, members)
+            except Unsupported:
+                bv = None
+            if isinstance(bv, dict):
+                bv[l['name']] = v
+                return
+            path = member_path(l)
+            if path is not None:
+                members[path] = v
+                return
         if (l.get('k') == 'un' and l.get('op') == '*') or l.get('k') == 'sub':
             # a store through a pointer: memory is not modelled; recorded for the caller
             self.mem_stores.append((show(l), v))
